@@ -140,6 +140,22 @@ class AdaptiveAdapter(Adapter):
                     h.fill_n(np.array([p[0] for p in pts], dtype=float), weights=w)
                 else:
                     h.fill_n(np.array(pts, dtype=float).reshape(-1, dim), weights=w)
+            elif action == "FillRefused":
+                i, k, how = args
+                h = o[i]
+                self._wake(h)
+                dim = h.ndim
+                rec = fmap(pre["pool"])[i]
+                pt = self._point(tuple([k] * dim), "M", rec)
+                if how == "fill_short":       # one coordinate too few (a vector of one for 1D is no scalar either)
+                    obs["ret"] = h.fill(list(pt[:-1]) if dim > 1 else [pt[0]])
+                elif how == "fill_long":
+                    obs["ret"] = h.fill(list(pt) + [pt[0]])
+                elif how == "fill_n_width":
+                    obs["ret"] = h.fill_n(np.array([list(pt) + [pt[0]]] * 2)) if dim > 1 else h.fill_n([pt[0], pt[0]], weights=[[1, 2, 3]])
+                else:
+                    rows = np.array([pt, pt], dtype=float)
+                    obs["ret"] = h.fill_n(rows[:, 0] if dim == 1 else rows, weights=[1, 2, 3])
             elif action == "Add":
                 i, j, k = args
                 self._wake(o[i])
@@ -235,7 +251,10 @@ class AdaptiveAdapter(Adapter):
 
     def compare(self, real, obs, post, action, args, pre, view) -> Optional[Mismatch]:
         bad, det = [], {}
-        if obs["exc"] is not None:
+        if action == "FillRefused":
+            if obs["exc"] is None:
+                return Mismatch(["refused"], {"expected": "an exception", "observed": repr(obs["ret"])})
+        elif obs["exc"] is not None:
             return Mismatch(["accepted"], {"raised": obs["exc"]})
         pool = fmap(post["pool"])
         live = {i for i, r in pool.items() if "null" not in r}
@@ -331,6 +350,9 @@ class AdaptiveAdapter(Adapter):
             return f"FillN/{st(i)}/" + "|".join(sorted({rel(i, e[0]) + e[1] for e in batch})) if batch else f"FillN/{st(i)}/empty"
         if action in ("Add", "IAdd"):
             return f"{action}/{st(args[0])}/{st(args[1])}"
+        if action == "FillRefused":
+            i, k, how = args
+            return f"FillRefused/{how}/{st(i)}/{rel(i, tuple([k] * len(pool[i]['axes'])))}"
         return f"{action}/{st(args[0])}"
 
     def describe(self, action, args, pre):
